@@ -73,7 +73,7 @@ def jVal (j : Json) : Except String (Val R) :=
     match fld? j "op", fld? j "nd", fld? j "b", fld? j "cb" with
     | some (.arr a), _, _, _ =>
       if a.size = 2 then do pure (.optPair (← jOptR a[0]!) (← jOptR a[1]!)) else throw "optPair arity"
-    | _, some k, _, _ => do pure (.ndim (← jNat k))
+    | _, some k, _, _ => do pure (.ndim (← jNat k) (match fld? j "rows" with | some r => (jNat r).toOption.getD 0 | none => 0))
     | _, _, some b, _ => do pure (.bounds (← jPyVal b))
     | _, _, _, some c => do pure (.cbounds (← jCbSpec c))
     | _, _, _, _ => throw s!"bad value {j.compress}"
@@ -130,7 +130,7 @@ def dumpDev (d : Dev R) : List Json :=
    | .idevice => padPVal d.n d.ia ++ padPVal d.n d.ib ++ padPVal d.n d.ic
    | .idevice2 | .cdevice2 => padPVal d.n d.pl ++ padPVal d.n d.ph
    | .cdevice => [rVal d.ca, rVal d.cb]
-   | .gdevice => [jN (d.coeffNdim.getD 0)]
+   | .gdevice => [jN ((d.coeffNdim.map (·.1)).getD 0)]
    | _ => []) ++ [jN d.extra.length]
 
 def codeOf : Option Err → Nat
